@@ -1,762 +1,5 @@
-(* Properties.v - the property theorems and nothing else.  Every theorem is
-   closed by [exact <lemma>] and followed by Print Assumptions. *)
-From NTRIP Require Import Base Bits BitsProofs Crc CrcProofs Time Classify Frame FrameSpec FrameProofs Html Queue QueueProofs ClassifyProofs Retry RetryProofs TimeSpec History WriteProofs EncProofs TimeProofs SegProofs Msm Station StationProofs Range RangeProofs FloatProofs Net Pipe PipeFrames FilterProofs ProdCons MsmSpec MsmProofs MsmRoundtrip DetermProofs.
-From NTRIP Require ConcQueue Relay.
-From NTRIP Require Import FloatMore.
-From NTRIPGen Require Import GenConsts.
-From Coq Require Import Reals Floats.
-From Flocq Require Import Core IEEE754.BinarySingleNaN IEEE754.PrimFloat.
-From NTRIPGen Require Import ClassifyTable.
-
-(* ===================== C14 ===================== *)
-(* Unsigned extraction returns the integer whose binary digits are the addressed
-   bits, most significant first, for every buffer, offset and width 1..64 lying
-   inside the buffer. *)
-Theorem C14_unsigned : forall buf pos len,
-  (1 <= len <= 64)%nat -> (pos + len <= 8 * length buf)%nat ->
-  get_u buf pos len = Ok (N_of_bits (slice (bits_of buf) pos len)).
-Proof. intros buf pos len [_ H]. exact (get_u_spec buf pos len H). Qed.
-Print Assumptions C14_unsigned.
-
-(* Signed extraction returns the two's-complement value of the same bits. *)
-Theorem C14_signed : forall buf pos len,
-  (2 <= len <= 64)%nat -> (pos + len <= 8 * length buf)%nat ->
-  get_s buf pos len = Ok (Z_of_bits_2c (slice (bits_of buf) pos len)).
-Proof. exact get_s_spec. Qed.
-Print Assumptions C14_signed.
-
-(* Neither reads nor is influenced by any bit outside the field. *)
-Theorem C14_locality : forall b1 b2 pos len,
-  (1 <= len <= 64)%nat -> (pos + len <= 8 * length b1)%nat -> (pos + len <= 8 * length b2)%nat ->
-  slice (bits_of b1) pos len = slice (bits_of b2) pos len ->
-  get_u b1 pos len = get_u b2 pos len /\
-  ((2 <= len)%nat -> get_s b1 pos len = get_s b2 pos len).
-Proof. exact get_locality. Qed.
-Print Assumptions C14_locality.
-
-(* Non-vacuity: a 9-byte-spanning signed field that holds the minimum value. *)
-Example C14_example :
-  get_s [1; 0; 0; 0; 0; 0; 0; 0; 0]%N 7 64 = Ok (- 2 ^ 63)%Z /\
-  get_u [211; 0; 19; 62; 208]%N 24 12 = Ok 1005%N.
-Proof. split; vm_compute; reflexivity. Qed.
-
-(* ===================== C01 ===================== *)
-(* Every message the stream handler delivers with a non-negative type carries raw bytes that
-   are exactly one valid RTCM3 frame (preamble, zero reserved bits, non-zero length equal to
-   the payload size, trailing CRC-24Q of the bit-serial specification), and the reported type
-   is the frame's first 12 payload bits. *)
-Theorem C01_stream : forall h input ms h', bytes_ok input ->
-  handle_stream h input = Ok (ms, h') ->
-  Forall (fun m => (0 <= mtype m)%Z ->
-            valid_frame (raw m) /\ mtype m = Z.of_N (frame_type (raw m))) ms.
-Proof. exact stream_typed_valid. Qed.
-Print Assumptions C01_stream.
-
-(* Single-frame decoding never returns a typed message without an error unless the bytes at
-   the head of its argument are such a frame, and then the message holds exactly that frame. *)
-Theorem C01_single : forall h b m h', bytes_ok b ->
-  get_message h b = Ok (Some m, h') -> (0 <= mtype m)%Z -> merr m = None ->
-  valid_frame (raw m) /\ mtype m = Z.of_N (frame_type (raw m)) /\ exists x, b = raw m ++ x.
-Proof. exact get_message_valid. Qed.
-Print Assumptions C01_single.
-
-(* The model's Hash (table-driven, uint32) is the CRC-24Q of the specification. *)
-Theorem C01_crc : forall data, bytes_ok data -> crc24q_hash data = crc24q_spec data.
-Proof. exact crc24q_hash_spec. Qed.
-Print Assumptions C01_crc.
-
-(* Non-vacuity: a real 1005 frame is valid and is delivered typed; the stricter reading
-   "the argument is exactly one frame" is refuted by design (trailing bytes are ignored). *)
-Example C01_example :
-  let f := [211; 0; 19; 62; 208; 2; 12; 10; 88; 246; 126; 253; 63; 255; 237; 41; 121; 12; 239; 94; 128; 227; 229; 56; 76]%N in
-  valid_frameb f = true /\ frame_type f = 1005%N /\
-  (exists m h', get_message (new_handler 0) (f ++ [0]%N) = Ok (Some m, h') /\ mtype m = 1005%Z /\ raw m = f /\ merr m = None).
-Proof.
-  cbv zeta. split; [vm_compute; reflexivity|]. split; [vm_compute; reflexivity|].
-  eexists. eexists. split; [vm_compute; reflexivity|]. repeat split.
-Qed.
-
-(* ===================== C02 ===================== *)
-(* For every finite byte stream the stream handler returns (no panic, fuel suffices) and the
-   raw bytes of the delivered messages, concatenated in order, are the input; none is empty. *)
-Theorem C02_lossless : forall h input,
-  exists ms h', handle_stream h input = Ok (ms, h') /\
-    concat (map raw ms) = input /\ Forall (fun m => raw m <> []) ms.
-Proof.
-  intros h input. destruct (handle_stream_lossless h input) as (ms & h' & H1 & H2 & H3 & _).
-  exists ms, h'. repeat split; assumption.
-Qed.
-Print Assumptions C02_lossless.
-
-(* The same with channels and schedules (the network of Pipe.v with one consumer): for all
-   capacities of the byte, message and consumer channels and every schedule of producer,
-   framer and consumer, executions are finite and end with the consumer holding the lossless
-   segmentation, the framer halted and the output channel closed. *)
-Theorem C02_every_schedule : forall t0 (input : list N) cap0 cap1 capc,
-  (1 <= cap0)%nat -> (1 <= cap1)%nat -> (1 <= capc)%nat ->
-  exists n, forall m c,
-    steps _ (nstep _ _ _ (Pipe.prog N msg (list N) (fun acc b => (acc ++ [b], [])) (frame_flush t0) 1 (fun _ => true))
-                   Pipe.sender Pipe.receiver (SkDone _ _ _)) m
-          (Pipe.init N msg (list N) 1 cap0 cap1 [capc] input []) c ->
-    (m <= n)%nat /\
-    (final_config _ _ _ (Pipe.prog N msg (list N) (fun acc b => (acc ++ [b], [])) (frame_flush t0) 1 (fun _ => true))
-                  Pipe.sender Pipe.receiver (SkDone _ _ _) c ->
-     concat (map raw (sink_out N msg (list N) c 0)) = input /\
-     Forall (fun x => raw x <> []) (sink_out N msg (list N) c 0) /\
-     halted N msg (list N) (fun acc b => (acc ++ [b], [])) (frame_flush t0) 1 (fun _ => true) c 1 /\
-     closed (nth 1 (chans c) (dchan _)) = true).
-Proof. exact lossless_every_schedule. Qed.
-Print Assumptions C02_every_schedule.
-
-Example C02_example :
-  exists ms h', handle_stream (new_handler 0) [65; 211; 66; 67; 68; 69; 211]%N = Ok (ms, h') /\
-                map raw ms = [[65]; [211; 66; 67; 68; 69]; [211]]%N.
-Proof. eexists. eexists. split; vm_compute; reflexivity. Qed.
-
-(* ===================== C07 (framing and single-frame part) ===================== *)
-(* For every byte stream the stream handler returns normally: no panic (out-of-bounds read),
-   no error of the model's own, and the recursion fuel S (length input) always suffices. *)
-Theorem C07_stream : forall h input, exists ms h', handle_stream h input = Ok (ms, h').
-Proof.
-  intros h input. destruct (handle_stream_lossless h input) as (ms & h' & H & _).
-  exists ms, h'. exact H.
-Qed.
-Print Assumptions C07_stream.
-
-(* Single-frame decoding returns normally for arbitrary bytes (the function is public). *)
-Theorem C07_single : forall h b, exists r, get_message h b = Ok r.
-Proof. exact get_message_total. Qed.
-Print Assumptions C07_single.
-
-(* Non-vacuity: the 8-byte CRC-valid MSM-typed frame that used to kill the process is now
-   delivered as a typed message carrying an error. *)
-Example C07_example :
-  exists m h', get_message (new_handler 0) [211; 0; 2; 67; 80; 6; 162; 126]%N = Ok (Some m, h') /\
-               mtype m = 1077%Z /\ merr m = Some ErrTooShort.
-Proof. eexists. eexists. split; [vm_compute; reflexivity|]. split; reflexivity. Qed.
-
-(* ===================== C18 (sequential part) ===================== *)
-(* For a queue of capacity N >= 1 and every sequence of additions, a snapshot returns exactly
-   the most recent min(N, number added) messages in the order they were added, and the queue
-   never holds more than N. *)
-Theorem C18_last_n : forall (A : Type) (n : nat) (xs : list A), (1 <= n)%nat ->
-  let q := fold_left qadd xs (new_queue n) in
-  snapshot q = lastn (Nat.min n (length xs)) xs /\ (length (q_items q) <= n)%nat.
-Proof. exact queue_last_n. Qed.
-Print Assumptions C18_last_n.
-
-Example C18_example :
-  snapshot (fold_left qadd [1; 2; 3; 4; 5]%N (new_queue 3)) = [3; 4; 5]%N.
-Proof. vm_compute. reflexivity. Qed.
-
-(* The concurrent half (ConcQueue.v): any number of goroutines, each running any sequence of
-   Add and GetMessages calls, under the queue's RWMutex.  The bodies are not atomic in the
-   model (evict / insert, read keys / collect items are separate steps on the shared map); the
-   facts queue_add_locked / queue_get_locked, regenerated from the source on every run, say that
-   Add runs entirely under the write lock and GetMessages entirely under the read lock.
-   For every schedule and every reachable configuration: every snapshot any goroutine has been
-   given is the last min(N, k) of the first k additions in commit order, for some k - a
-   contiguous run of the addition order - and the committed operations form a legal sequential
-   history of the queue of C18_last_n in which each operation lies between its call and its
-   return and each goroutine's results are the results of its own operations (linearizability);
-   the abstract queue never holds more than N, and whenever no writer is inside Add the shared
-   queue IS the abstract queue. *)
-Theorem C18_concurrent_snapshots : forall (A : Type) (cap : nat) prog c, (1 <= cap)%nat ->
-  ConcQueue.reach A queue_add_locked queue_get_locked (ConcQueue.init A cap prog) c ->
-  forall i l, In (ConcQueue.RGet A l) (ConcQueue.outs A c i) ->
-  exists pre suf, ConcQueue.added A c = pre ++ suf /\ l = lastn (Nat.min cap (length pre)) pre.
-Proof. intros A cap prog c Hc. exact (ConcQueue.snapshots_are_last_n A cap Hc _ _ eq_refl eq_refl prog c). Qed.
-Print Assumptions C18_concurrent_snapshots.
-
-Theorem C18_linearizable : forall (A : Type) (cap : nat) prog c, (1 <= cap)%nat ->
-  ConcQueue.reach A queue_add_locked queue_get_locked (ConcQueue.init A cap prog) c ->
-  ConcQueue.legal A (new_queue cap) (ConcQueue.hist A c) (ConcQueue.absq A c) /\
-  (forall i, exists p, ConcQueue.proj A i (ConcQueue.hist A c) = ConcQueue.outs A c i ++ p /\ (length p <= 1)%nat) /\
-  (length (q_items (ConcQueue.absq A c)) <= cap)%nat /\
-  ((forall i, ConcQueue.holdsW A queue_add_locked (ConcQueue.th A c i) = false) -> ConcQueue.shq A c = ConcQueue.absq A c).
-Proof. intros A cap prog c Hc. exact (ConcQueue.linearizable A cap Hc _ _ eq_refl eq_refl prog c). Qed.
-Print Assumptions C18_linearizable.
-
-(* ===================== C19 (report part) ===================== *)
-(* Every traffic-derived part of the status page (both buffer dumps and the message list) is
-   passed through the sanitiser, and sanitised text contains neither '<' nor '>'. *)
-Theorem C19_escaped : forall dump_c dump_s displays,
-  forallb no_markup (traffic_parts dump_c dump_s displays) = true.
-Proof. exact traffic_parts_escaped. Qed.
-Print Assumptions C19_escaped.
-
-Theorem C19_sanitise : forall s, no_markup (sanitise s) = true.
-Proof. exact sanitise_no_markup. Qed.
-Print Assumptions C19_sanitise.
-
-Example C19_example : sanitise [60; 98; 62]%N = [38; 108; 116; 59; 98; 38; 103; 116; 59]%N.
-Proof. vm_compute. reflexivity. Qed.
-
-(* The relay half (Relay.v): the client-to-server loop pushes every byte of a chunk to the
-   traffic parser and then writes the chunk to the server; the parser (ANY framing state machine)
-   feeds the queue updater.  For all chunk sequences, all capacities >= 1 of the byte and message
-   channels and every schedule: executions are finite, each can be completed to one final
-   configuration and a maximal one IS that configuration; in it the loop has returned, the
-   server has been written exactly the client's chunks in order and unchanged (parsing can delay
-   the relay but neither alters, withholds nor stops it), both channels are empty, and the queue
-   was given exactly the messages sequential framing finds in the relayed bytes. *)
-Theorem C19_relay_every_schedule :
-  forall (B M FS : Type) (fstep : FS -> B -> FS * list M) cap0 cap1 (chunks : list (list B)) (s0 : FS),
-  (1 <= cap0)%nat -> (1 <= cap1)%nat ->
-  exists n, forall m c,
-    steps _ (nstep _ _ _ (Relay.prog B M FS fstep) Relay.sender Relay.receiver (Relay.QDead B M FS)) m
-          (Relay.init B M FS cap0 cap1 chunks s0) c ->
-    (m <= n)%nat /\
-    steps _ (nstep _ _ _ (Relay.prog B M FS fstep) Relay.sender Relay.receiver (Relay.QDead B M FS)) (n - m) c
-          (Relay.fin B M FS fstep cap0 cap1 chunks s0) /\
-    (final_config _ _ _ (Relay.prog B M FS fstep) Relay.sender Relay.receiver (Relay.QDead B M FS) c ->
-     c = Relay.fin B M FS fstep cap0 cap1 chunks s0).
-Proof. exact Relay.relay_every_schedule. Qed.
-Print Assumptions C19_relay_every_schedule.
-
-Theorem C19_relay_final :
-  forall (B M FS : Type) (fstep : FS -> B -> FS * list M) cap0 cap1 (chunks : list (list B)) (s0 : FS),
-  let f := Relay.fin B M FS fstep cap0 cap1 chunks s0 in
-  Relay.server_writes B M FS f = map (Relay.EvW B M) chunks /\
-  Relay.queue_adds B M FS f = map (Relay.EvQ B M) (fst (Relay.frun B M FS fstep s0 (concat chunks))) /\
-  Relay.prog B M FS fstep (nth 0%nat (procs f) (Relay.QDead B M FS)) = OHalt _ _ _ /\
-  buf (nth 0%nat (chans f) (dchan _)) = [] /\ buf (nth 1%nat (chans f) (dchan _)) = [].
-Proof. exact Relay.fin_shape. Qed.
-Print Assumptions C19_relay_final.
-
-(* ===================== C20 ===================== *)
-(* For every 12-bit message type and the two negative sentinels (4098 values, enumerated
-   completely over the table the real code produced on this run): exactly the fourteen
-   standard types are MSM4 respectively MSM7, only they carry an extracted timestamp, each maps
-   to its constellation and is accepted by exactly its own decoder family, full decoding is
-   attempted for exactly MSM4, MSM7, 1005 and 1006, the title is non-empty and the message can
-   be displayed at both log levels. *)
-Theorem C20_consistent : forall t, (-2 <= t <= 4095)%Z ->
-  r_t (lookup t) = t /\ row_ok (lookup t) = true.
-Proof. exact classification_consistent. Qed.
-Print Assumptions C20_consistent.
-
-(* the closed forms the model uses elsewhere are the code's classifications *)
-Theorem C20_closed_forms :
-  forallb (fun r => Bool.eqb (msm4b (r_t r)) (r_msm4 r) && Bool.eqb (msm7b (r_t r)) (r_msm7 r) &&
-                    Bool.eqb (msmb (r_t r)) (r_msm r) && (Z.of_N (constellation_code (r_t r)) =? r_const r)%Z)
-          classify_table = true.
-Proof. exact closed_forms_agree. Qed.
-Print Assumptions C20_closed_forms.
-
-Example C20_example : r_dispatch (lookup 1127) = 7%Z /\ r_const (lookup 1127) = 6%Z /\ r_ts (lookup 1006) = false.
-Proof. vm_compute. repeat split. Qed.
-
-(* ===================== C13 (the read loop) ===================== *)
-(* Wherever end-of-file / timeout results, pauses and other errors fall, every byte the source
-   supplied before the loop stopped has been forwarded exactly once and in order, and nothing
-   else has: forwarded = data of the consumed part of the script; the step that stops the loop
-   carries no data. *)
-Theorem C13_forwarding : forall tol wait script s s' why rest,
-  run_script tol wait script s = (s', why, rest) ->
-  exists consumed, script = consumed ++ unread_after why rest /\
-                   r_out s' = r_out s ++ data_of consumed /\
-                   (why <> StopNone -> exists c e, consumed = c ++ [e] /\ data_of [e] = []).
-Proof. exact run_script_forwarding. Qed.
-Print Assumptions C13_forwarding.
-
-(* With a non-zero tolerance, single and double end-of-file / timeout results between data
-   (also inside a frame: the loop knows nothing of frames) never stop the loop: all data is
-   forwarded, so the framing stage sees exactly the uninterrupted stream. *)
-Theorem C13_resume : forall tol wait script, (0 < tol)%N -> (wait <= tol)%N -> gentle script ->
-  forall s, r_first s = None ->
-  exists s', run_script tol wait script s = (s', StopNone, []) /\ r_out s' = r_out s ++ data_of script /\
-             r_first s' = None.
-Proof. intros tol wait script H1 H2 G. exact (gentle_resumes tol wait H1 H2 script G). Qed.
-Print Assumptions C13_resume.
-
-(* Tolerance zero: the first end-of-file or timeout stops the loop; another read error always
-   does; the data received so far has been forwarded. *)
-Theorem C13_stop_zero_or_error : forall wait pre rest e, (e = REof \/ e = RTimeout \/ e = ROther) ->
-  Forall (fun st => match st with RData _ | RSleep _ => True | _ => False end) pre ->
-  forall s, exists s', run_script 0 wait (pre ++ e :: rest) s =
-      (s', match e with REof => StopEOF | RTimeout => StopTimeout | _ => StopOther end, rest) /\
-    r_out s' = r_out s ++ data_of pre.
-Proof. exact zero_tolerance_stops. Qed.
-Print Assumptions C13_stop_zero_or_error.
-
-(* A source that stays silent (end-of-file for ever) always makes the loop return. *)
-Theorem C13_stop_silent : forall tol wait s rest, r_first s = None ->
-  exists s' k, run_script tol wait (REof :: REof :: REof :: REof :: rest) s = (s', StopEOF, k) /\ r_out s' = r_out s.
-Proof. exact silence_stops. Qed.
-Print Assumptions C13_stop_silent.
-
-Example C13_example :
-  run_reader 200 1 [RData [65; 66]; REof; RData [211; 0]; RTimeout; REof; RData [1]]%N = ([65; 66; 211; 0; 1]%N, StopEOF) /\
-  gentle [RData [65; 66]; REof; RData [211; 0]; RTimeout; REof; RData [1]]%N.
-Proof.
-  split; [vm_compute; reflexivity|].
-  apply g_data. apply g_one; [left; reflexivity|discriminate|]. apply g_two; [right; reflexivity|left; reflexivity|discriminate|]. apply g_nil.
-Qed.
-
-(* ===================== C17 and C06 ===================== *)
-(* C17: a handler created with any start time T in the constellation week of the first
-   observation - earlier or later than the data - and fed, through the public single-frame
-   path, CRC-valid MSM4/MSM7 frames of GPS, Galileo, GLONASS and BeiDou in any interleaving,
-   where per constellation the true observation instants are whole milliseconds, never
-   decrease and are less than six days apart, reports for every frame the true UTC instant
-   and the true start of the constellation week, across any number of rollovers; a frame
-   with an illegal timestamp is reported as an error and changes nothing. *)
-Theorem C17_any_start : forall T evs, admissibleb false T evs = true ->
-  exists rs h', run_history (new_handler T) evs = Ok (rs, h') /\
-                Forall2 (fun e r => report_ok e r = true) evs rs.
-Proof.
-  intros T evs H. exact (history_true_times false T evs (fun _ => None) (new_handler T) (inv_new T) H).
-Qed.
-Print Assumptions C17_any_start.
-
-(* C06: the same under the stronger precondition that the first observation of each
-   constellation is not earlier than T. *)
-Theorem C06_true_time : forall T evs, admissibleb true T evs = true ->
-  exists rs h', run_history (new_handler T) evs = Ok (rs, h') /\
-                Forall2 (fun e r => report_ok e r = true) evs rs.
-Proof.
-  intros T evs H. apply C17_any_start. apply admissible_weaken. exact H.
-Qed.
-Print Assumptions C06_true_time.
-
-(* Non-vacuity: a four-constellation history across rollovers, started late in the week
-   (Wed 2023-05-10 12:00 UTC), first GPS observation 23 ms into the week, an illegal timestamp
-   in between.  It is admissible for C17 (not for C06: the first observation precedes T). *)
-Example C17_example :
-  let T := 1683720000000000000%Z in
-  let evs := [Obs GPS true 1683417582023000000; Obs Glonass false 1683500000000000000;
-              Bad GPS false 604800000; Obs GPS true 1683800000000000000; Obs Galileo true 1683900000000000000;
-              Obs GPS false 1684022382000000000; Obs Glonass true 1684011600000000000;
-              Obs Beidou true 1683720000000000000; Obs Beidou false 1684022396001000000] in
-  admissibleb false T evs = true /\ admissibleb true T evs = false /\
-  (exists rs h', run_history (new_handler T) evs = Ok (rs, h') /\
-     nth 5 rs (None, None) = (Some (Ok 1684022382000000000%Z), Some 1684022382000000000%Z)).
-Proof.
-  cbv zeta. split; [vm_compute; reflexivity|]. split; [vm_compute; reflexivity|].
-  eexists. eexists. split; vm_compute; reflexivity.
-Qed.
-
-(* ===================== C15 (state independence) ===================== *)
-(* Everything GetMessage reports about a frame except the UTC time and the start of week -
-   type, raw bytes, error kind, timestamp, whether a time could be computed - is the same for
-   every handler state, i.e. whatever frames were processed before and whichever handler is
-   used.  Full decoding (decode_msm4/7, decode1005/1006) does not take the handler at all. *)
-Theorem C15_state_independent : forall h1 h2 b,
-  result_core (get_message h1 b) = result_core (get_message h2 b).
-Proof. exact get_message_state_independent. Qed.
-Print Assumptions C15_state_independent.
-
-(* The same for whole streams: what the stream handler delivers for a byte stream - types, raw
-   bytes, error texts, raw timestamps, whether a time could be derived - is the same for every
-   handler state, i.e. whatever start time the handler was created with and whatever it has
-   processed before (a handler's state after any history is just another state). *)
-Theorem C15_stream_state_independent : forall h1 h2 input,
-  stream_core (handle_stream h1 input) = stream_core (handle_stream h2 input).
-Proof. exact stream_state_independent. Qed.
-Print Assumptions C15_stream_state_independent.
-
-(* ===================== C03 ===================== *)
-(* If a stream is a sequence of valid frames (any type, payload 1..1023 bytes, 0xD3 bytes
-   allowed anywhere inside them) interleaved with non-empty runs of other data containing no
-   0xD3, optionally ending in a truncated frame (a non-empty proper prefix of a valid frame),
-   the delivered (type, raw bytes) pairs are exactly those segments in order: each frame once
-   as a typed message holding its own bytes, adjacent runs of other data merged into one
-   non-RTCM message, the truncated tail as a non-RTCM message. *)
-Theorem C03_segments : forall h segs tail, wf_segsb segs = true -> tail_ok tail ->
-  exists ms h', handle_stream h (flatten segs ++ tail) = Ok (ms, h') /\
-                map core ms = expected segs tail.
-Proof. exact segments_delivered. Qed.
-Print Assumptions C03_segments.
-
-Example C03_example :
-  let f := [211; 0; 19; 62; 208; 2; 12; 10; 88; 246; 126; 253; 63; 255; 237; 41; 121; 12; 239; 94; 128; 227; 229; 56; 76]%N in
-  let segs := [Junk [36; 71]; Junk [80]; Frame f; Frame f; Junk [1]]%N in
-  wf_segsb segs = true /\ tail_ok (firstn 9 f) /\
-  expected segs (firstn 9 f) = [((-1)%Z, [36; 71; 80]%N); (1005%Z, f); (1005%Z, f); ((-1)%Z, [1]%N); ((-1)%Z, firstn 9 f)].
-Proof.
-  cbv zeta. split; [vm_compute; reflexivity|]. split; [|vm_compute; reflexivity].
-  right. split; [discriminate|]. eexists. exists (skipn 9 [211; 0; 19; 62; 208; 2; 12; 10; 88; 246; 126; 253; 63; 255; 237; 41; 121; 12; 239; 94; 128; 227; 229; 56; 76]%N).
-  split; [|split; [symmetry; apply firstn_skipn|discriminate]]. vm_compute. reflexivity.
-Qed.
-
-(* ===================== C12 ===================== *)
-(* If in such a stream the payload or CRC bytes of one frame are altered (same length, same
-   3-byte leader, any alteration including new 0xD3 bytes) so that its CRC no longer
-   matches, that frame is delivered as a single non-RTCM message holding exactly its bytes
-   and every other segment is delivered exactly as without the corruption. *)
-Theorem C12_isolation : forall h pre post f' tail,
-  wf_segsb pre = true -> wf_segsb post = true -> bad_frame f' -> tail_ok tail ->
-  exists ms h', handle_stream h (flatten pre ++ f' ++ flatten post ++ tail) = Ok (ms, h') /\
-                map core ms = expected pre [] ++ [((-1)%Z, f')] ++ expected post tail.
-Proof. exact corrupted_frame_isolated. Qed.
-Print Assumptions C12_isolation.
-
-Example C12_example :
-  let f := [211; 0; 19; 62; 208; 2; 12; 10; 88; 246; 126; 253; 63; 255; 237; 41; 121; 12; 239; 94; 128; 227; 229; 56; 76]%N in
-  let f' := [211; 0; 19; 62; 208; 2; 211; 0; 88; 246; 126; 253; 63; 255; 237; 41; 121; 12; 239; 94; 128; 227; 229; 56; 76]%N in
-  bad_frame f'.
-Proof.
-  cbv zeta. split; [|split].
-  - apply bytes_okb_spec. vm_compute. reflexivity.
-  - unfold crc_mismatch. vm_compute. discriminate.
-  - exists [211; 0; 19; 62; 208; 2; 12; 10; 88; 246; 126; 253; 63; 255; 237; 41; 121; 12; 239; 94; 128; 227; 229; 56; 76]%N.
-    split; [vm_compute; reflexivity|]. split; reflexivity.
-Qed.
-
-(* ===================== C05 (decoding) ===================== *)
-(* For every well-formed 1005 or 1006 message - station id, ITRF year, the three signed 38-bit
-   coordinates over their full range, the reserved bit groups and (1006) the 16-bit antenna
-   height - laid out as the standard says, carried in a frame with any extra payload bytes
-   after it, decoding reproduces every field. *)
-Theorem C05_decode : forall m extra, wf_station m = true -> bytes_ok extra ->
-  (length (bytes_of_bits (station_bits m)) + length extra <= 1023)%nat ->
-  decode_station (st_type m) (station_frame m extra) = Ok m.
-Proof. exact decode_station_roundtrip. Qed.
-Print Assumptions C05_decode.
-
-(* A frame too short for the fields is rejected with an error. *)
-Theorem C05_reject_short : forall (ty : N) (b : list N),
-  (Z.of_nat (8 * length b) - 48 < (if (ty =? 1006)%N then 168 else 152))%Z ->
-  decode_station ty b = Err ErrOverrun.
-Proof. exact decode_station_short. Qed.
-Print Assumptions C05_reject_short.
-
-(* A message of a different type is rejected with an error. *)
-Theorem C05_reject_type : forall b t, (8 * length b >= 216)%nat -> get_u b 24 12 = Ok t ->
-  (t <> 1005%N -> decode1005 b = Err ErrWrongType) /\ (t <> 1006%N -> decode1006 b = Err ErrWrongType).
-Proof. exact decode_station_wrong_type. Qed.
-Print Assumptions C05_reject_type.
-
-(* On arbitrary bytes both decoders return a message of their own type or one of two errors -
-   never a panic (this is also C07 for these decoders). *)
-Theorem C05_total : forall b,
-  ((exists m, decode1005 b = Ok m /\ st_type m = 1005%N) \/ decode1005 b = Err ErrOverrun \/ decode1005 b = Err ErrWrongType) /\
-  ((exists m, decode1006 b = Ok m /\ st_type m = 1006%N) \/ decode1006 b = Err ErrOverrun \/ decode1006 b = Err ErrWrongType).
-Proof. intros b. split; [apply decode1005_total|apply decode1006_total]. Qed.
-Print Assumptions C05_total.
-
-Example C05_example :
-  let m := {| st_type := 1006; st_id := 2; st_itrf := 3; st_ign1 := 0; st_x := (- 2 ^ 37)%Z; st_ign2 := 1;
-              st_y := (2 ^ 37 - 1)%Z; st_ign3 := 2; st_z := (-1)%Z; st_height := 65535 |}%N in
-  wf_station m = true /\ decode1006 (station_frame m [7; 8]%N) = Ok m.
-Proof. cbv zeta. split; vm_compute; reflexivity. Qed.
-
-(* ===================== C05 (display) ===================== *)
-(* For every 38-bit signed coordinate X the double computed by float64(X) * 0.0001 is within
-   1e-8 m of X/10^4, so the nearest value with four decimals - which is what a correctly rounded
-   "%.4f" prints - is exactly the encoded integer times 0.0001 m.  (The 16-bit antenna height is
-   the special case 0 <= X < 2^16.) *)
-Theorem C05_display : forall (X : Z) choice, (- 2 ^ 37 <= X < 2 ^ 37)%Z ->
-  Znearest choice (B2R (Prim2B (coord_m X)) * 10000)%R = X.
-Proof. exact coord_display. Qed.
-Print Assumptions C05_display.
-
-(* ===================== C08 ===================== *)
-(* The scaled aggregates are exactly the standard's sums (the uint64/int64 wraps of the code are
-   harmless on the fields' ranges whenever the true value is non-negative). *)
-Theorem C08_scaled_range : forall w f d, (w < 256)%N -> (f < 1024)%N -> (- 2 ^ 19 <= d < 2 ^ 19)%Z ->
-  (0 <= Z.of_N w * 2 ^ 29 + Z.of_N f * 2 ^ 19 + d)%Z ->
-  Z.of_N (scaled_range w f d) = (Z.of_N w * 2 ^ 29 + Z.of_N f * 2 ^ 19 + d)%Z.
-Proof. exact scaled_range_exact. Qed.
-Print Assumptions C08_scaled_range.
-
-Theorem C08_scaled_phase : forall w f p, (w < 256)%N -> (f < 1024)%N -> (- 2 ^ 23 <= p < 2 ^ 23)%Z ->
-  (0 <= Z.of_N w * 2 ^ 31 + Z.of_N f * 2 ^ 21 + p)%Z ->
-  Z.of_N (scaled_phase w f p) = (Z.of_N w * 2 ^ 31 + Z.of_N f * 2 ^ 21 + p)%Z.
-Proof. exact scaled_phase_exact. Qed.
-Print Assumptions C08_scaled_phase.
-
-Theorem C08_scaled_rate : forall rough fine, (- 2 ^ 13 <= rough < 2 ^ 13)%Z -> (- 2 ^ 14 <= fine < 2 ^ 14)%Z ->
-  scaled_rate rough fine = (rough * 10000 + fine)%Z.
-Proof. exact scaled_rate_exact. Qed.
-Print Assumptions C08_scaled_rate.
-
-(* An MSM4 and an MSM7 cell encoding the same quantity yield the same aggregate. *)
-Theorem C08_msm4_msm7_agree : forall w f d4 p4,
-  agg_range4 w f d4 = agg_range7 w f (d4 * 32) /\ agg_phase4 w f p4 = agg_phase7 w f (p4 * 4).
-Proof. exact msm4_msm7_agree. Qed.
-Print Assumptions C08_msm4_msm7_agree.
-
-(* Invalid markers: an invalid rough range makes the values zero, an invalid fine value falls back
-   to the rough value alone, an invalid rough rate gives zero. *)
-Theorem C08_invalid : forall w f d p rough fine,
-  agg_range4 255 f d = 0%N /\ agg_range7 255 f d = 0%N /\ agg_phase4 255 f p = 0%N /\ agg_phase7 255 f p = 0%N /\
-  (w <> 255%N -> agg_range4 w f (-16384) = scaled_range w f 0 /\ agg_range7 w f (-524288) = scaled_range w f 0 /\
-               agg_phase4 w f (-2097152) = scaled_phase w f 0 /\ agg_phase7 w f (-8388608) = scaled_phase w f 0) /\
-  agg_rate (-8192) fine = 0%Z /\ (rough <> (-8192)%Z -> agg_rate rough (-16384) = scaled_rate rough 0).
-Proof. exact invalid_markers. Qed.
-Print Assumptions C08_invalid.
-
-(* The pseudorange in metres, (float64(S)/2^29) * OneLightMillisecond in binary64, equals
-   c/1000 x S/2^29 with a relative error below 2^-51, for every 41-bit scaled range S > 0. *)
-Theorem C08_range_error : forall S : N, (0 < S < 2 ^ 41)%N ->
-  let exact := (IZR (Z.of_N S) / 536870912 * (299792458 / 1000))%R in
-  (Rabs (B2R (Prim2B (range_m S)) - exact) <= exact / 2251799813685248)%R.
-Proof. exact range_error. Qed.
-Print Assumptions C08_range_error.
-
-(* The other three binary64 pipelines, for every (constellation, signal) pair of the code's
-   wavelength table that has a frequency (each is an integer number of Hz between 1 and 2 GHz:
-   FloatMore.wavelength_table, by evaluation of the table): relative error at most 2^-53 for the
-   rate in m/s (one rounding) and below 2^-50 for the phase range in cycles (three roundings
-   and the representation error of 299792.458) and the Doppler shift in Hz (four roundings). *)
-Theorem C08_rate_error : forall a : Z, (a <> 0)%Z -> (- 2 ^ 40 < a < 2 ^ 40)%Z ->
-  let exact := (IZR a / 10000)%R in
-  (Rabs (B2R (Prim2B (rate_ms a)) - exact) <= Rabs exact / 9007199254740992)%R.
-Proof. exact rate_error. Qed.
-Print Assumptions C08_rate_error.
-
-Theorem C08_phase_error : forall (c s S : N), freq c s <> 0%float -> (0 < S < 2 ^ 41)%N ->
-  exists F : Z, B2R (Prim2B (freq c s)) = IZR F /\
-    let exact := (IZR (Z.of_N S) / 2147483648 * (IZR F / 1000))%R in
-    (Rabs (B2R (Prim2B (phase_cycles S (wavelength c s))) - exact) <= exact / 1125899906842624)%R.
-Proof. exact phase_error_table. Qed.
-Print Assumptions C08_phase_error.
-
-Theorem C08_doppler_error : forall (c s : N) (a : Z), freq c s <> 0%float -> (a <> 0)%Z -> (- 2 ^ 40 < a < 2 ^ 40)%Z ->
-  exists F : Z, B2R (Prim2B (freq c s)) = IZR F /\
-    let exact := (- (IZR a / 10000 * (IZR F / 299792458)))%R in
-    (Rabs (B2R (Prim2B (doppler a (wavelength c s))) - exact) <= Rabs exact / 1125899906842624)%R.
-Proof. exact doppler_error_table. Qed.
-Print Assumptions C08_doppler_error.
-
-Example C08_example :
-  scaled_range 80 512 (-5) = 43218108411%N /\ agg_range4 80 512 7 = agg_range7 80 512 224 /\
-  float_bits (range_m 43218108411) = 4717243441704860898%N.
-Proof. repeat split; vm_compute; reflexivity. Qed.
-
-(* ===================== C04 ===================== *)
-(* For every well-formed abstract MSM4/MSM7 message m (any of the 14 types, any satellite,
-   signal and cell masks with at most 64 cells, any in-range field values including the
-   'invalid' markers, multiple-message flag as the property allows) and every number of zero
-   padding bytes, the decoder applied to the frame the specification encoder wrote returns
-   exactly the decoded view of m: every header field, the satellite, signal and cell tables
-   implied by the masks, every satellite cell and every signal cell attached to the right
-   satellite and signal id. The right-hand side does not mention [pad]: the result is the same
-   however many padding bytes follow, and no well-formed message is rejected. *)
-Theorem C04_roundtrip : forall m pad, wf_amsm m = true ->
-  decode_msm (a_k7 m) (msm_frame m pad) = Ok (view m).
-Proof. exact msm_roundtrip. Qed.
-Print Assumptions C04_roundtrip.
-
-(* Up to the 1023-byte payload limit that frame is a valid RTCM3 frame (C01's predicate). *)
-Theorem C04_frame_valid : forall m pad, wf_amsm m = true -> (payload_bytes m + pad <= 1023)%nat ->
-  valid_frame (msm_frame m pad).
-Proof. exact msm_frame_valid. Qed.
-Print Assumptions C04_frame_valid.
-
-Example C04_example :
-  let m := {| a_k7 := true; a_type := 1077%N; a_station := 5%N; a_ts := 432000000%N; a_multi := true; a_iods := 3%N;
-              a_sess := 0%N; a_clk := 1%N; a_ext := 2%N; a_smooth := true; a_smint := 5%N;
-              a_sats := [3; 17; 64]%N; a_sigs := [2; 32]%N;
-              a_rows := [[true; false]; [false; false]; [true; true]];
-              a_satdata := [(81%N, 3%N, 1000%N, (-8192)%Z); (255%N, 15%N, 0%N, 8191%Z); (70%N, 0%N, 512%N, (-1)%Z)];
-              a_sigdata := [((-524288)%Z, 8388607%Z, 1023%N, true, 1023%N, (-16384)%Z);
-                            (0%Z, 0%Z, 0%N, false, 0%N, 0%Z);
-                            (12345%Z, (-8388608)%Z, 7%N, true, 300%N, 16383%Z)] |} in
-  wf_amsm m = true /\ decode_msm true (msm_frame m 3) = Ok (view m) /\
-  map (map g_id) (m_sigs (view m)) = [[2]; []; [2; 32]]%N.
-Proof. cbv zeta. split; [vm_compute; reflexivity|]. split; vm_compute; reflexivity. Qed.
-
-(* ===================== C09 ===================== *)
-(* The reader -> framer -> fan-out -> consumers network of appcore.HandleMessagesUntilEOF (Pipe.v),
-   for ANY framing state machine (fstep, fflush), any input bytes, any number k of consumer
-   entries of which any may be nil (live i = false), and any channel capacities >= 1:
-   there is a bound n such that every execution under every schedule
-     - has at most n steps (no schedule runs for ever),
-     - can be continued to the one configuration [fin] (no schedule is stuck anywhere else:
-       no deadlock, and no process blocked on a second close of a channel),
-     - and if it cannot be continued it IS [fin];
-   in [fin] reader, framer and fan-out have halted, every channel is empty, and every non-nil
-   consumer has recorded exactly the sequential output [seqrun] of the framer on the input. *)
-Theorem C09_every_schedule :
-  forall (B M FS : Type) (fstep : FS -> B -> FS * list M) (fflush : FS -> list M) (k : nat) (live : nat -> bool)
-         cap0 cap1 caps (bs : list B) (s0 : FS),
-  (1 <= cap0)%nat -> (1 <= cap1)%nat -> length caps = k -> Forall (fun c => (1 <= c)%nat) caps ->
-  exists n, forall m c,
-    steps _ (nstep _ _ _ (Pipe.prog B M FS fstep fflush k live) Pipe.sender Pipe.receiver (SkDone B M FS)) m
-          (Pipe.init B M FS k cap0 cap1 caps bs s0) c ->
-    (m <= n)%nat /\
-    steps _ (nstep _ _ _ (Pipe.prog B M FS fstep fflush k live) Pipe.sender Pipe.receiver (SkDone B M FS)) (n - m) c
-          (fin B M FS fstep fflush k live cap0 cap1 caps bs s0) /\
-    (final_config _ _ _ (Pipe.prog B M FS fstep fflush k live) Pipe.sender Pipe.receiver (SkDone B M FS) c ->
-     c = fin B M FS fstep fflush k live cap0 cap1 caps bs s0).
-Proof. exact pipeline_every_schedule. Qed.
-Print Assumptions C09_every_schedule.
-
-Theorem C09_final_configuration :
-  forall (B M FS : Type) (fstep : FS -> B -> FS * list M) (fflush : FS -> list M) (k : nat) (live : nat -> bool)
-         cap0 cap1 caps (bs : list B) (s0 : FS),
-  let f := fin B M FS fstep fflush k live cap0 cap1 caps bs s0 in
-  halted B M FS fstep fflush k live f 0 /\ halted B M FS fstep fflush k live f 1 /\ halted B M FS fstep fflush k live f 2 /\
-  (forall i, (i < k)%nat -> sink_out B M FS f i = if live i then seqrun B M FS fstep fflush s0 bs else []) /\
-  (forall ch, (ch < 2 + k)%nat -> length caps = k -> buf (nth ch (chans f) (dchan _)) = []).
-Proof. exact fin_shape. Qed.
-Print Assumptions C09_final_configuration.
-
-(* Instance: the framer is the model's stream handler (as a machine that is given the bytes one
-   at a time and delivers what handle_stream delivers); its sequential output on the input is
-   exactly handle_stream's message list, whose content C01/C02/C03 describe. *)
-Theorem C09_frames : forall t0 (input : list N) (k : nat) (live : nat -> bool) cap0 cap1 caps,
-  (1 <= cap0)%nat -> (1 <= cap1)%nat -> length caps = k -> Forall (fun c => (1 <= c)%nat) caps ->
-  exists ms h', handle_stream (new_handler t0) input = Ok (ms, h') /\
-  exists n, forall m c,
-    steps _ (nstep _ _ _ (Pipe.prog N msg (list N) (fun acc b => (acc ++ [b], [])) (frame_flush t0) k live)
-                   Pipe.sender Pipe.receiver (SkDone _ _ _)) m
-          (Pipe.init N msg (list N) k cap0 cap1 caps input []) c ->
-    (m <= n)%nat /\
-    (final_config _ _ _ (Pipe.prog N msg (list N) (fun acc b => (acc ++ [b], [])) (frame_flush t0) k live)
-                  Pipe.sender Pipe.receiver (SkDone _ _ _) c ->
-     forall i, (i < k)%nat -> sink_out N msg (list N) c i = if live i then ms else []).
-Proof. exact pipeline_frames. Qed.
-Print Assumptions C09_frames.
-
-Example C09_example :
-  exists c, run _ _ _ (Pipe.prog nat nat nat (fun s b => (s + b, if Nat.even b then [s + b] else []))%nat (fun s => [s]) 2 (fun i => Nat.eqb i 1))
-                Pipe.sender Pipe.receiver (SkDone _ _ _)
-                (Pipe.init nat nat nat 2 1 1 [1; 1]%nat [3; 4]%nat 0%nat)
-                [0; 1; 0; 1; 1; 2; 2; 4; 4; 0; 1; 1; 2; 2; 4; 4; 1; 2]%nat = Some c /\
-            c = fin nat nat nat (fun s b => (s + b, if Nat.even b then [s + b] else []))%nat (fun s => [s]) 2 (fun i => Nat.eqb i 1)
-                    1 1 [1; 1]%nat [3; 4]%nat 0%nat /\
-            sink_out nat nat nat c 1 = [7; 7]%nat /\ sink_out nat nat nat c 0 = [].
-Proof. eexists. split; [vm_compute; reflexivity|]. split; vm_compute; auto. Qed.
-
-(* ===================== C10 ===================== *)
-(* rtcmfilter's writer goroutines write the raw bytes of every message whose type is not
-   NonRTCMMessage (filter_output). For EVERY input byte stream the stream handler cuts the
-   input into consecutive messages (their raw bytes concatenate to the input: nothing is
-   reordered, duplicated or invented), the output is the concatenation, in that order, of the
-   pieces that are written, every written piece is a valid RTCM3 frame of the reported type,
-   and every piece that is not written was delivered as non-RTCM data. *)
-Theorem C10_any_input : forall h input, bytes_ok input ->
-  exists ms h', handle_stream h input = Ok (ms, h') /\
-    concat (map raw ms) = input /\
-    filter_output ms = concat (map (fun m => if is_rtcm m then raw m else []) ms) /\
-    Forall (fun m => if is_rtcm m then valid_frame (raw m) /\ mtype m = Z.of_N (frame_type (raw m))
-                     else mtype m = NonRTCMMessage) ms.
-Proof. exact filter_any_input. Qed.
-Print Assumptions C10_any_input.
-
-(* For a stream of valid frames interleaved with other data free of 0xD3 and an optional
-   truncated frame at the end, the output is exactly the frames, in order: no omission. *)
-Theorem C10_segments : forall h segs tail, wf_segsb segs = true -> tail_ok tail ->
-  exists ms h', handle_stream h (flatten segs ++ tail) = Ok (ms, h') /\ filter_output ms = frames_of segs.
-Proof. exact filter_segments. Qed.
-Print Assumptions C10_segments.
-
-(* The same for the running program: reader, framer, fan-out and k writer goroutines (output,
-   display log, record file as configured) under every schedule and all channel capacities:
-   every execution is finite and when nothing can move any more every writer has written
-   exactly the frames (the record file holds the same bytes as the output). *)
-Theorem C10_every_schedule : forall t0 segs tail (k : nat) (live : nat -> bool) cap0 cap1 caps,
-  wf_segsb segs = true -> tail_ok tail ->
-  (1 <= cap0)%nat -> (1 <= cap1)%nat -> length caps = k -> Forall (fun c => (1 <= c)%nat) caps ->
-  exists n, forall m c,
-    steps _ (nstep _ _ _ (Pipe.prog N msg (list N) (fun acc b => (acc ++ [b], [])) (frame_flush t0) k live)
-                   Pipe.sender Pipe.receiver (SkDone _ _ _)) m
-          (Pipe.init N msg (list N) k cap0 cap1 caps (flatten segs ++ tail) []) c ->
-    (m <= n)%nat /\
-    (final_config _ _ _ (Pipe.prog N msg (list N) (fun acc b => (acc ++ [b], [])) (frame_flush t0) k live)
-                  Pipe.sender Pipe.receiver (SkDone _ _ _) c ->
-     forall i, (i < k)%nat -> live i = true -> filter_output (sink_out N msg (list N) c i) = frames_of segs).
-Proof. exact filter_every_schedule. Qed.
-Print Assumptions C10_every_schedule.
-
-Example C10_example :
-  let f := [211; 0; 19; 62; 208; 2; 12; 10; 88; 246; 126; 253; 63; 255; 237; 41; 121; 12; 239; 94; 128; 227; 229; 56; 76]%N in
-  let segs := [Junk [36; 71]; Frame f; Junk [80]; Frame f; Junk [1]]%N in
-  wf_segsb segs = true /\ tail_ok (firstn 9 f) /\ frames_of segs = (f ++ f)%list /\
-  exists ms h', handle_stream (new_handler 0) (flatten segs ++ firstn 9 f) = Ok (ms, h') /\ filter_output ms = (f ++ f)%list.
-Proof.
-  cbv zeta. split; [vm_compute; reflexivity|]. split; [|split; [vm_compute; reflexivity|]].
-  - right. split; [discriminate|]. eexists. exists (skipn 9 [211; 0; 19; 62; 208; 2; 12; 10; 88; 246; 126; 253; 63; 255; 237; 41; 121; 12; 239; 94; 128; 227; 229; 56; 76]%N).
-    split; [|split; [symmetry; apply firstn_skipn|discriminate]]. vm_compute. reflexivity.
-  - eexists. eexists. split; vm_compute; reflexivity.
-Qed.
-
-(* ===================== C11 ===================== *)
-(* displayrtcm3 and rtcmfilter: the entry point hands every message to a writer goroutine over
-   a channel, closes the channel and waits for the writer.  In EVERY reachable configuration of
-   that network - every interleaving, every channel capacity >= 1 (Go's unbuffered channel being
-   the capacity-1 case with immediate receive), every writer latency lat (internal steps per
-   write) - once the entry point has returned the writer has written every message, in order.
-   The [wait] parameter is read from the source on every run (the waits_... constants of GenConsts). *)
-Theorem C11_flushed_displayrtcm3 : forall (V : Type) lat cap (ms : list V) c, (1 <= cap)%nat ->
-  reachable _ _ _ (prog V lat false waits_displayrtcm3) sender receiver (MDone V) (init V cap ms) c ->
-  returned V (main_out V c) = true -> writes V (writer_out V c) = ms.
-Proof.
-  intros V lat cap ms c Hc Hr Hret.
-  exact (proj1 (flushed_at_return V lat false waits_displayrtcm3 cap ms c eq_refl Hc Hr Hret)).
-Qed.
-Print Assumptions C11_flushed_displayrtcm3.
-
-Theorem C11_flushed_rtcmfilter : forall (V : Type) lat cap (ms : list V) c, (1 <= cap)%nat ->
-  reachable _ _ _ (prog V lat false waits_rtcmfilter) sender receiver (MDone V) (init V cap ms) c ->
-  returned V (main_out V c) = true -> writes V (writer_out V c) = ms.
-Proof.
-  intros V lat cap ms c Hc Hr Hret.
-  exact (proj1 (flushed_at_return V lat false waits_rtcmfilter cap ms c eq_refl Hc Hr Hret)).
-Qed.
-Print Assumptions C11_flushed_rtcmfilter.
-
-(* No schedule deadlocks: a configuration in which nothing can move is the one where the entry
-   point has returned and the writer has finished. *)
-Theorem C11_no_deadlock : forall (V : Type) lat cap (ms : list V) c, (1 <= cap)%nat ->
-  reachable _ _ _ (prog V lat false true) sender receiver (MDone V) (init V cap ms) c ->
-  final_config _ _ _ (prog V lat false true) sender receiver (MDone V) c ->
-  nth 0%nat (procs c) (MDone V) = MDone V /\ nth 1%nat (procs c) (MDone V) = WHalt V.
-Proof. intros V lat cap ms c Hc. exact (no_deadlock V lat false true cap ms c eq_refl Hc). Qed.
-Print Assumptions C11_no_deadlock.
-
-(* The protocol without the wait (the code before its repair) loses output: main has returned and
-   the writer has written nothing. *)
-Theorem C11_unrepaired_witness :
-  exists c, run (st nat) nat (ev nat) (prog nat 0%nat false false) sender receiver (MDone nat) (init nat 1%nat [7]%nat) [0; 0; 0]%nat = Some c /\
-            returned nat (main_out nat c) = true /\ writes nat (writer_out nat c) = []%list.
-Proof. exact unrepaired_witness. Qed.
-Print Assumptions C11_unrepaired_witness.
-
-(* ===================== C16 ===================== *)
-(* rtcmlogger: the copy loop writes each block to stdout itself (pass-through), hands a copy to
-   the recorder goroutine, and at end of input closes the channel and waits for the recorder.
-   In every reachable configuration in which the program has ended (main has returned), stdout
-   and the record both hold exactly the input blocks, complete and in order. *)
-Theorem C16_logger : forall (V : Type) lat cap (blocks : list V) c, (1 <= cap)%nat ->
-  reachable _ _ _ (prog V lat true waits_rtcmlogger) sender receiver (MDone V) (init V cap blocks) c ->
-  returned V (main_out V c) = true ->
-  passes V (main_out V c) = blocks /\ writes V (writer_out V c) = blocks.
-Proof.
-  intros V lat cap blocks c Hc Hr Hret.
-  destruct (flushed_at_return V lat true waits_rtcmlogger cap blocks c eq_refl Hc Hr Hret) as [A B].
-  split; [apply B; reflexivity|exact A].
-Qed.
-Print Assumptions C16_logger.
-
-Theorem C16_no_deadlock : forall (V : Type) lat cap (blocks : list V) c, (1 <= cap)%nat ->
-  reachable _ _ _ (prog V lat true true) sender receiver (MDone V) (init V cap blocks) c ->
-  final_config _ _ _ (prog V lat true true) sender receiver (MDone V) c ->
-  nth 0%nat (procs c) (MDone V) = MDone V /\ nth 1%nat (procs c) (MDone V) = WHalt V.
-Proof. intros V lat cap blocks c Hc. exact (no_deadlock V lat true true cap blocks c eq_refl Hc). Qed.
-Print Assumptions C16_no_deadlock.
-
-Example C16_example :
-  exists c, run (st nat) nat (ev nat) (prog nat 1%nat true true) sender receiver (MDone nat) (init nat 1%nat [4; 5]%nat)
-              [0; 0; 1; 0; 1; 1; 0; 1; 1; 1; 0; 1; 1; 0; 0]%nat = Some c /\
-            returned nat (main_out nat c) = true /\ passes nat (main_out nat c) = [4; 5]%nat /\ writes nat (writer_out nat c) = [4; 5]%nat.
-Proof. eexists. split; [vm_compute; reflexivity|]. repeat split. Qed.
-
-(* ===================== C07 (full decoding) ===================== *)
-(* For arbitrary bytes - in particular CRC-valid frames whose payload is shorter than or
-   inconsistent with what the message type requires, masks announcing more cells than fit -
-   the MSM4 and MSM7 decoders (header, satellite cells, the cell-count inference, signal cells,
-   attachment) and the 1005/1006 decoders return a message or an error, never a panic
-   (no bit is read outside the buffer). *)
-Theorem C07_decoders : forall b,
-  decode_msm4 b <> Panic /\ decode_msm7 b <> Panic /\ decode1005 b <> Panic /\ decode1006 b <> Panic.
-Proof.
-  intros b. split; [apply decode_msm4_no_panic|]. split; [apply decode_msm7_no_panic|]. split.
-  - destruct (decode1005_total b) as [(m & -> & _)|[->| ->]]; discriminate.
-  - destruct (decode1006_total b) as [(m & -> & _)|[->| ->]]; discriminate.
-Qed.
-Print Assumptions C07_decoders.
+(* Properties.v - umbrella: the property theorems live in one file per property, P_C01.v ... P_C20.v
+   (theorem statements closed by [exact <lemma>] and followed by Print Assumptions, nothing else).
+   This file only requires them all, for whole-development builds and coqchk. *)
+From NTRIP Require P_C01 P_C02 P_C03 P_C04 P_C05 P_C06 P_C07 P_C08 P_C09 P_C10
+                   P_C11 P_C12 P_C13 P_C14 P_C15 P_C16 P_C17 P_C18 P_C19 P_C20.
